@@ -54,6 +54,11 @@ struct btcp_socket
 
 	    int badness_reason;
 
+	    /* In state 'closed': set if the peer's close was noticed
+	       when writing (EPIPE). What the peer sent before it
+	       closed may then still wait to be read. */
+	    bool input_left;
+
 	    int bell_reg_id;
 
 	    /* for conn_state_resolving */
@@ -649,9 +654,10 @@ static int btcp_send(struct xcm_socket *__restrict s,
 	    LOG_LOWER_DELIVERED_PART(s, rc);
 	    XCM_TP_CNT_BYTES_INC(bts->conn.cnts, to_lower, rc);
 	} else if (rc < 0) {
-	    if (errno == EPIPE)
-		BTCP_SET_STATE(s, conn_state_closed); 
-	    else if (errno != EAGAIN) {
+	    if (errno == EPIPE) {
+		BTCP_SET_STATE(s, conn_state_closed);
+		bts->conn.input_left = true;
+	    } else if (errno != EAGAIN) {
 		BTCP_SET_STATE(s, conn_state_bad);
 		bts->conn.badness_reason = errno;
 	    }
@@ -685,7 +691,9 @@ static int btcp_receive(struct xcm_socket *__restrict s, void *__restrict buf,
 	errno = bts->conn.badness_reason;
 	return -1;
     case conn_state_closed:
-	return 0;
+	if (!bts->conn.input_left)
+	    return 0;
+	break;
     case conn_state_resolving:
     case conn_state_connecting:
 	errno = EAGAIN;
@@ -698,6 +706,12 @@ static int btcp_receive(struct xcm_socket *__restrict s, void *__restrict buf,
     }
 
     int rc = recv(bts->fd, buf, capacity, 0);
+
+    if (bts->conn.state == conn_state_closed && rc <= 0) {
+	/* nothing (more) had arrived before the peer closed */
+	bts->conn.input_left = false;
+	return 0;
+    }
 
     if (rc < 0) {
 	LOG_RCV_FAILED(s, errno);
